@@ -302,8 +302,95 @@ def pe_read(blob):
                                           NumberOfSymbols=nsym, SizeOfOptionalHeader=optsz, Characteristics=chars), Opt=opt, dirs=dirs, secs=secs)
 
 
-def pe_build(plus, nsec, ndirs, variant):
-    """minimal well-formed PE32/PE32+ image with nsec sections"""
+IMPORT_MENUS = {
+    # label -> list of (dll, [("name", hint, symbol) | ("ord", number), ...])
+    "names": [("KERNEL32.dll", [("name", 1, "ExitProcess"), ("name", 0x22, "GetTickCount")])],
+    "ord-first": [("WS2_32.dll", [("ord", 115), ("name", 7, "connect"), ("ord", 3)])],
+    "mixed-2dll": [("KERNEL32.dll", [("name", 1, "ExitProcess"), ("ord", 42), ("name", 3, "Sleep")]),
+                   ("USER32.dll", [("ord", 0xFFFF), ("name", 9, "MessageBoxA")])],
+}
+
+
+def pe_import_blob(plus, rva, imports):
+    """import directory + lookup tables + address tables + hint/name table + dll names, laid out from rva;
+    returns (bytes, directory size)"""
+    esz = 8 if plus else 4
+    ndesc = len(imports) + 1
+    pos = 20 * ndesc
+    ilt, iat, names, dlln = [], [], [], []
+    for dll, ents in imports:
+        ilt.append(pos); pos += esz * (len(ents) + 1)
+    for dll, ents in imports:
+        iat.append(pos); pos += esz * (len(ents) + 1)
+    for dll, ents in imports:
+        row = []
+        for e in ents:
+            if e[0] == "name":
+                row.append(pos); pos += 2 + len(e[2]) + 1
+                pos += pos & 1
+            else:
+                row.append(None)
+        names.append(row)
+    for dll, ents in imports:
+        dlln.append(pos); pos += len(dll) + 1
+    out = bytearray(pos)
+    for k, (dll, ents) in enumerate(imports):
+        struct.pack_into("<IIIII", out, 20 * k, rva + ilt[k], 0, 0, rva + dlln[k], rva + iat[k])
+        for j, e in enumerate(ents):
+            v = (rva + names[k][j]) if e[0] == "name" else ((1 << (8 * esz - 1)) | e[1])
+            struct.pack_into("<Q" if plus else "<I", out, ilt[k] + esz * j, v)
+            struct.pack_into("<Q" if plus else "<I", out, iat[k] + esz * j, v)
+            if e[0] == "name":
+                struct.pack_into("<H", out, names[k][j], e[1])
+                out[names[k][j] + 2:names[k][j] + 2 + len(e[2])] = e[2].encode()
+        out[dlln[k]:dlln[k] + len(dll)] = dll.encode()
+    return bytes(out), 20 * ndesc
+
+
+def pe_read_imports(blob):
+    """independent import reader (PE/COFF spec, section 'The .idata Section'): {IAT slot virtual address: 'dll::symbol'}"""
+    ref = pe_read(blob)
+    plus = ref["Opt"]["Magic"] == 0x20B
+    esz = 8 if plus else 4
+    base = ref["Opt"]["ImageBase"]
+
+    def off(rva):
+        for s in ref["secs"]:
+            if s["RVA"] <= rva < s["RVA"] + max(s["VirtualSize"], s["SizeOfRawData"]):
+                return s["PointerToRawData"] + rva - s["RVA"]
+        raise ValueError(rva)
+
+    def cstr(o):
+        return blob[o:blob.index(b"\0", o)].decode()
+    if len(ref["dirs"]) < 2 or ref["dirs"][1][0] == 0:
+        return {}
+    D = {}
+    o = off(ref["dirs"][1][0])
+    while True:
+        ilt, ts, fw, nm, iat = struct.unpack_from("<IIIII", blob, o)
+        if (ilt, ts, fw, nm, iat) == (0, 0, 0, 0, 0):
+            break
+        dll = cstr(off(nm))
+        lo = off(ilt or iat)
+        k = 0
+        while True:
+            v = struct.unpack_from("<Q" if plus else "<I", blob, lo + esz * k)[0]
+            if v == 0:
+                break
+            if v >> (8 * esz - 1):
+                sym = "#%d" % (v & 0xFFFF)
+            else:
+                sym = cstr(off(v & 0x7FFFFFFF) + 2)
+            D[base + iat + esz * k] = "%s::%s" % (dll, sym)
+            k += 1
+        o += 20
+    return D
+
+
+def pe_build(plus, nsec, ndirs, variant, optpad=0, imports=None):
+    """minimal well-formed PE32/PE32+ image with nsec sections; optpad extra bytes follow the data
+    directories inside the optional header (SizeOfOptionalHeader covers them); imports (a menu of
+    IMPORT_MENUS) places an import directory at offset 0x40 of the second section"""
     lfanew = 0x80 + 8 * variant
     dos = bytearray(lfanew)
     dos[0:2] = b"MZ"
@@ -311,7 +398,7 @@ def pe_build(plus, nsec, ndirs, variant):
     base = 0x400000 if not plus else 0x140000000
     falign, salign = 0x200, 0x1000
     optfmt = ("<HBB" + "I" * 5 + "Q" + "II" + "H" * 6 + "I" * 4 + "HH" + "Q" * 4 + "II") if plus else ("<HBB" + "I" * 9 + "H" * 6 + "I" * 4 + "HH" + "I" * 6)
-    optsz = struct.calcsize(optfmt) + 8 * ndirs
+    optsz = struct.calcsize(optfmt) + 8 * ndirs + optpad
     hdrs = lfanew + 24 + optsz + 40 * nsec
     sizeofheaders = (hdrs + falign - 1) // falign * falign
     secs = []
@@ -332,13 +419,24 @@ def pe_build(plus, nsec, ndirs, variant):
     blob = bytearray(dos)
     blob += struct.pack("<IHHIIIHH", 0x4550, 0x8664 if plus else 0x14C, nsec, 0x5F000000 + variant, 0, 0, optsz, 0x22 if plus else 0x102)
     blob += struct.pack(optfmt, *vals)
+    imp = None
+    if imports and nsec >= 2 and ndirs >= 2:
+        imp = pe_import_blob(plus, secs[1]["RVA"] + 0x40, IMPORT_MENUS[imports])
     for i in range(ndirs):
-        blob += struct.pack("<II", 0, 0)
+        if i == 1 and imp:
+            blob += struct.pack("<II", secs[1]["RVA"] + 0x40, imp[1])
+        else:
+            blob += struct.pack("<II", 0x3000 + 0x10 * i if i in (2, 5) else 0, 0x10 * i if i in (2, 5) else 0)
+    blob += b"\xEE" * optpad
     for s in secs:
         blob += struct.pack("<8sIIIIIIHHI", s["Name"], s["VirtualSize"], s["RVA"], s["SizeOfRawData"], s["PointerToRawData"], 0, 0, 0, 0, s["Characteristics"])
     blob = blob.ljust(sizeofheaders, b"\0")
     for i, s in enumerate(secs):
-        blob += bytes(((j * 3 + i * 17 + 1) & 0xFF) for j in range(s["SizeOfRawData"]))
+        body = bytearray(((j * 3 + i * 17 + 1) & 0xFF) for j in range(s["SizeOfRawData"]))
+        if i == 1 and imp:
+            assert 0x40 + len(imp[0]) <= min(s["SizeOfRawData"], s["VirtualSize"])
+            body[0x40:0x40 + len(imp[0])] = imp[0]
+        blob += bytes(body)
     return bytes(blob)
 
 
@@ -385,6 +483,19 @@ def pe_check(blob, label, queries=True):
     want_entry = ref["Opt"]["ImageBase"] + ref["Opt"]["AddressOfEntryPoint"]
     if p.entrypoints[0] != want_entry:
         F("field", "entrypoints", "entry %#x vs %#x" % (p.entrypoints[0], want_entry))
+    # imported functions: {IAT slot address: "dll::symbol"} versus the independent import reader
+    try:
+        want_f = pe_read_imports(blob)
+    except Exception:
+        want_f = None      # the sample's import directory is beyond the reference reader
+    if want_f is not None:
+        n += 1 + len(want_f)
+        got_f = dict(p.functions)
+        if got_f != want_f:
+            ks = sorted(set(got_f) | set(want_f))
+            k = next(k for k in ks if got_f.get(k) != want_f.get(k))
+            F("imports", "functions", "functions[%#x] = %r, the import tables encode %r (%d slots reported, %d encoded)" % (
+                k, got_f.get(k), want_f.get(k), len(got_f), len(want_f)))
     if queries:
         base = ref["Opt"]["ImageBase"]
         for i, r in enumerate(ref["secs"]):
@@ -691,10 +802,11 @@ def unit(args):
             out, n = pe_check(blob, os.path.relpath(payload, SAMPLES), queries=True)
             fails = [Failure(s, w, c).to_json() for s, w, c in out]
         elif kind == "pe":
-            for (plus, nsec, ndirs, variant) in payload:
-                out, k = pe_check(pe_build(plus, nsec, ndirs, variant), "PE32%s/%dsec/%ddirs/v%d" % ("+" if plus else "", nsec, ndirs, variant))
+            for (plus, nsec, ndirs, variant, optpad, imp) in payload:
+                out, k = pe_check(pe_build(plus, nsec, ndirs, variant, optpad, imp),
+                                  "PE32%s/%dsec/%ddirs/v%d/pad%d%s" % ("+" if plus else "", nsec, ndirs, variant, optpad, "/imports:" + imp if imp else ""))
                 n += k
-                fails += [Failure(s, w, dict(c, gen=[plus, nsec, ndirs, variant])).to_json() for s, w, c in out]
+                fails += [Failure(s, w, dict(c, gen=[plus, nsec, ndirs, variant, optpad, imp])).to_json() for s, w, c in out]
         elif kind == "macho":
             for (is64, nsect, variant) in payload:
                 blob, d = macho_build(is64, nsect, variant)
@@ -727,7 +839,9 @@ def run(tier, seed):
             jobs.append(("elf-sample", f))
         elif head[:2] == b"MZ":
             jobs.append(("pe-sample", f))
-    pes = [(plus, nsec, ndirs, v) for plus in (False, True) for nsec in (1, 2, 3) for ndirs in (0, 2, 16) for v in ((0, 1, 2) if tier == "thorough" else (0, 1))]
+    pes = [(plus, nsec, ndirs, v, pad, None) for plus in (False, True) for nsec in (1, 2, 3) for ndirs in (0, 2, 10, 16)
+           for v in ((0, 1, 2) if tier == "thorough" else (0, 1)) for pad in (0, 8, 48)]
+    pes += [(plus, nsec, ndirs, 1, 0, imp) for plus in (False, True) for nsec in (2, 3) for ndirs in (2, 16) for imp in sorted(IMPORT_MENUS)]
     jobs.append(("pe", pes))
     machos = [(is64, ns, v) for is64 in (False, True) for ns in (0, 1, 2) for v in (0, 1)]
     jobs.append(("macho", machos))
